@@ -26,6 +26,20 @@ def lib_isinstance(e, st, a, kw, n):
     return VBool(z3.BoolVal(bool(kinds & set(names))))
 
 
+def lib_getattr(e, st, a, kw, n):
+    """getattr(obj, 'name') with a concrete name == obj.name (evaluated as that attribute expression)"""
+    import ast as _ast
+    if len(a) != 2 or not isinstance(a[1], VStr):
+        raise Unsupported("getattr with a default or a non-concrete name: " + _ast.unparse(n))
+    tmp = "#getattr%d" % len(st.locals)
+    st.locals[tmp] = a[0]
+    node = _ast.copy_location(_ast.Attribute(value=_ast.copy_location(_ast.Name(id=tmp, ctx=_ast.Load()), n), attr=a[1].s, ctx=_ast.Load()), n)
+    try:
+        return e.ev(node, st)
+    finally:
+        st.locals.pop(tmp, None)
+
+
 def lib_len(e, st, a, kw, n):
     x = a[0]
     if isinstance(x, (VSeq, VRefSeq, VSeqOf)):
@@ -196,7 +210,7 @@ def lib_dict(e, st, a, kw, n):
 
 def install(eng):
     eng.lib.update({
-        "len": lib_len, "isinstance": lib_isinstance, "dict": lib_dict, "list": lib_list, "np.asarray": lib_asarray, "np.array": lib_asarray,
+        "len": lib_len, "getattr": lib_getattr, "isinstance": lib_isinstance, "dict": lib_dict, "list": lib_list, "np.asarray": lib_asarray, "np.array": lib_asarray,
         "float": lib_float, "set": lib_set, "zip": lib_zip, "enumerate": lib_enumerate, "range": lib_range, "np.ones_like": lib_np_ones_like, "np.isscalar": lib_np_isscalar,
         "np.diff": lib_np_diff, "np.all": lib_np_all, "np.any": lib_np_any,
         "np.sort": lib_np_sort, "np.zeros": lib_np_zeros, "np.zeros_like": lib_np_zeros_like,
